@@ -20,6 +20,7 @@ type G struct {
 	kill   bool
 	wait   func() bool // nil = runnable
 	why    string
+	low    bool // delayed (vDelay): runs only when nothing else can, or after vRelease
 	exited chan struct{}
 	// locks held (for the race recorder): lock cell -> 1 read / 2 write mode;
 	// parent and the parent's locks at spawn time
@@ -101,7 +102,7 @@ func (e *Exec) switchTo(to, from *G, final bool) {
 	}
 }
 
-func (g *G) runnable() bool { return !g.done && (g.wait == nil || g.wait()) }
+func (g *G) runnable() bool { return !g.done && !g.low && (g.wait == nil || g.wait()) }
 
 // next picks the next runnable goroutine after g in id order (excluding g).
 func (e *Exec) next(g *G) *G {
@@ -112,7 +113,42 @@ func (e *Exec) next(g *G) *G {
 			return c
 		}
 	}
+	if e.inQuiesce {
+		return nil
+	}
+	// nothing else can run: a delayed goroutine gets its turn now
+	for i := 1; i < n; i++ {
+		c := e.gs[(g.id+i)%n]
+		if c.low && !c.done {
+			c.low = false
+			if c.runnable() {
+				return c
+			}
+		}
+	}
 	return nil
+}
+
+// release ends every delay (vRelease).
+func (e *Exec) release() {
+	for _, g := range e.gs {
+		g.low = false
+	}
+}
+
+// delay: the current goroutine steps aside until nothing else can run or the
+// harness releases it (vDelay).
+func (e *Exec) delay() {
+	g := e.cur
+	if g.id == 0 {
+		return
+	}
+	g.low = true
+	g.why = "delayed"
+	if n := e.next(g); n != nil {
+		e.switchTo(n, g, false)
+	}
+	g.low = false
 }
 
 // handOff is called by an exiting goroutine.
@@ -184,6 +220,8 @@ func (e *Exec) blockedOthers() int {
 // quiesce runs all other goroutines until none is runnable.
 func (e *Exec) quiesce() {
 	g := e.cur
+	e.inQuiesce = true
+	defer func() { e.inQuiesce = false }()
 	for {
 		n := e.next(g)
 		if n == nil {
